@@ -29,6 +29,18 @@ fn accepts(s: &Start) -> bool {
 /// C01 + C03 obligations of one step. In the interrupt-acceptance harnesses (`check_int`) the state and
 /// transfer comparisons ARE the statement of C02 (IFF1/IFF2 effects, pushed return address, vector,
 /// HALT release), so there they carry both tags and `check C02` counts them.
+/// `kani::assert` is assert-then-assume: after a failing assertion the path is cut, so of several violated
+/// obligations only the FIRST in program order would ever be reported - and a check that counts only its own
+/// property's tags would miss a violation hidden behind another property's. `vassert!` guards each
+/// obligation with its own nondeterministic bit: every obligation is reported independently of the others.
+macro_rules! vassert {
+    ($c:expr, $m:expr) => {
+        let vassert_cond: bool = $c;
+        if kani::any::<bool>() {
+            kani::assert(vassert_cond, $m);
+        }
+    };
+}
 macro_rules! def_check {
     ($name:ident, $tag:expr) => {
 fn $name(s: &Start) {
@@ -36,32 +48,32 @@ fn $name(s: &Start) {
     kani::assert(!o.overflow, "harness: event log large enough");
     let ignore_q = o.q_waived;
     let (a, b) = (&o.real, &o.spec);
-    kani::assert(a.a == b.a && a.b == b.b && a.c == b.c && a.d == b.d && a.e == b.e && a.h == b.h && a.l == b.l,
+    vassert!(a.a == b.a && a.b == b.b && a.c == b.c && a.d == b.d && a.e == b.e && a.h == b.h && a.l == b.l,
         concat!($tag, ".state main registers A,B,C,D,E,H,L"));
-    kani::assert(a.f == b.f, concat!($tag, ".state flags F (all eight bits)"));
-    kani::assert(a.a_alt == b.a_alt && a.f_alt == b.f_alt && a.b_alt == b.b_alt && a.c_alt == b.c_alt
+    vassert!(a.f == b.f, concat!($tag, ".state flags F (all eight bits)"));
+    vassert!(a.a_alt == b.a_alt && a.f_alt == b.f_alt && a.b_alt == b.b_alt && a.c_alt == b.c_alt
         && a.d_alt == b.d_alt && a.e_alt == b.e_alt && a.h_alt == b.h_alt && a.l_alt == b.l_alt,
         concat!($tag, ".state alternate registers"));
-    kani::assert(a.ixh == b.ixh && a.ixl == b.ixl && a.iyh == b.iyh && a.iyl == b.iyl, concat!($tag, ".state IX IY"));
-    kani::assert(a.pc == b.pc, concat!($tag, ".state PC"));
-    kani::assert(a.sp == b.sp, concat!($tag, ".state SP"));
-    kani::assert(a.i == b.i && a.r == b.r, concat!($tag, ".state I R"));
-    kani::assert(a.iff1 == b.iff1 && a.iff2 == b.iff2, concat!($tag, ".state IFF1 IFF2"));
-    kani::assert(a.im == b.im, concat!($tag, ".state interrupt mode"));
-    kani::assert(a.halted == b.halted, concat!("C02", ".state halted"));
-    kani::assert(a.pending_prefix == b.pending_prefix && a.int_inhibit == b.int_inhibit,
+    vassert!(a.ixh == b.ixh && a.ixl == b.ixl && a.iyh == b.iyh && a.iyl == b.iyl, concat!($tag, ".state IX IY"));
+    vassert!(a.pc == b.pc, concat!($tag, ".state PC"));
+    vassert!(a.sp == b.sp, concat!($tag, ".state SP"));
+    vassert!(a.i == b.i && a.r == b.r, concat!($tag, ".state I R"));
+    vassert!(a.iff1 == b.iff1 && a.iff2 == b.iff2, concat!($tag, ".state IFF1 IFF2"));
+    vassert!(a.im == b.im, concat!($tag, ".state interrupt mode"));
+    vassert!(a.halted == b.halted, concat!("C02", ".state halted"));
+    vassert!(a.pending_prefix == b.pending_prefix && a.int_inhibit == b.int_inhibit,
         concat!("C02", ".state pending prefix / interrupt shadow"));
     // C05's "interrupted exactly once per frame" needs INT to be sampled after every instruction the Z80
     // samples it after: a shadow left set where the Z80 clears it lets a run of such instructions hide
     // the 32-T pulse (one direction only: a shadow cleared too early does not lose the frame interrupt)
-    kani::assert(!(a.int_inhibit && !b.int_inhibit),
+    vassert!(!(a.int_inhibit && !b.int_inhibit),
         "C02/C05.state no instruction leaves the interrupt shadow set where the Z80 clears it");
-    kani::assert(a.memptr == b.memptr, concat!($tag, ".state MEMPTR"));
-    kani::assert(ignore_q || a.q == b.q, concat!($tag, ".state Q"));
-    kani::assert(o.ok_data, concat!($tag, ".trace memory/port transfers (order, address, data)"));
-    kani::assert(o.t_real == o.t_spec, "C03.time total T-states");
+    vassert!(a.memptr == b.memptr, concat!($tag, ".state MEMPTR"));
+    vassert!(ignore_q || a.q == b.q, concat!($tag, ".state Q"));
+    vassert!(o.ok_data, concat!($tag, ".trace memory/port transfers (order, address, data)"));
+    vassert!(o.t_real == o.t_spec, "C03.time total T-states");
     // (which address each cycle and each single internal T-state carries is also what C04's delays hang on)
-    kani::assert(o.ok_full, "C03/C04.trace bus cycles (kind, address, clocks)");
+    vassert!(o.ok_full, "C03/C04.trace bus cycles (kind, address, clocks)");
     kani::cover!(true);
 }
     };
